@@ -431,6 +431,62 @@ func runC04(cfg Config) {
 		doDecode("sha512", randBytes(rng, rng.Intn(200)), "random")
 	}
 
+	// an output that fails part-way: WriteTo (and what is built on it) must not report success for an index that was
+	// cut off — whenever it returns nil, what reached the writer is the complete encoding.  The failure can fall into
+	// the final flush of the buffered writer (any index below 4 KiB) or into an earlier one.
+	for it := 0; it < cfg.N(200, 4000); it++ {
+		idx := genIndex(rng)
+		if it%3 == 0 { // larger than one buffer
+			for k := 0; k < 150+rng.Intn(300); k++ {
+				var id desync.ChunkID
+				rng.Read(id[:])
+				last := uint64(0)
+				if n := len(idx.Chunks); n > 0 {
+					last = idx.Chunks[n-1].Start + idx.Chunks[n-1].Size
+				}
+				idx.Chunks = append(idx.Chunks, desync.IndexChunk{ID: id, Start: last, Size: 1 + uint64(rng.Intn(100))})
+			}
+		}
+		var full bytes.Buffer
+		if _, err := idx.WriteTo(&full); err != nil {
+			continue
+		}
+		total := full.Len()
+		room := rng.Intn(total + 1)
+		switch rng.Intn(4) {
+		case 0:
+			room = total - 1
+		case 1:
+			room = 0
+		}
+		lw := &limitWriter{room: room}
+		_, err := idx.WriteTo(lw)
+		caseLine := fmt.Sprintf("idx.write-fault chunks=%d bytes=%d writer-accepts=%d", len(idx.Chunks), total, room)
+		rep.Count(caseLine, len(idx.Chunks) > 0, "write-fault", fmt.Sprintf("write-fault-result:%v", err == nil))
+		if err == nil && !bytes.Equal(lw.buf.Bytes(), full.Bytes()) {
+			monitor(fmt.Sprintf("Index.WriteTo reported success although the writer took only %d of %d bytes", lw.buf.Len(), total), caseLine, "")
+		}
+	}
+	if _, err := os.Stat("/dev/full"); err == nil {
+		// a local index store whose file cannot take the bytes (the name is a link to /dev/full)
+		dir := filepath.Join(cfg.Work, "idxstore-full")
+		os.MkdirAll(dir, 0755)
+		if ls, err := desync.NewLocalIndexStore(dir); err == nil {
+			os.Symlink("/dev/full", filepath.Join(dir, "full.caibx"))
+			for it := 0; it < 5; it++ {
+				idx := genIndex(rng)
+				if len(idx.Chunks) == 0 {
+					continue
+				}
+				caseLine := fmt.Sprintf("idx.store-fault chunks=%d target=/dev/full", len(idx.Chunks))
+				rep.Count(caseLine, true, "store-fault")
+				if err := ls.StoreIndex("full.caibx", idx); err == nil {
+					monitor("LocalIndexStore.StoreIndex reported success although the device is full", caseLine, "")
+				}
+			}
+		}
+	}
+
 	// index stores: the bytes a store keeps under a name are the WriteTo encoding of the last index
 	// stored there, also when the name held a longer index before (local file, HTTP index server
 	// in front of a local index store)
